@@ -290,6 +290,10 @@ func c10Corpus(answer bool) []pcCase {
 			Remote: []rsec{
 				{Kind: "video", Codecs: []rcodec{{Name: "VP8", Clock: 90000, PT: 96}}, Exts: []rext{{ID: 20, URI: mid}}},
 				{Kind: "video", Codecs: []rcodec{{Name: "VP8", Clock: 90000, PT: 96}}, Exts: []rext{{ID: 3, URI: mid}}}}},
+		// repaired (fix: setCodecPreferencesFromRemoteDescription removes the matched media
+		// engine codec): one codec offered under two payload types used to be answered "123 123"
+		{Audio: []cdc{{Mime: "audio/telephone-event", Clock: 8000, PT: 101}}, Multi: true, Answer: true,
+			Remote: []rsec{{Kind: "audio", Codecs: []rcodec{{Name: "telephone-event", Clock: 8000, PT: 123}, {Name: "telephone-event", Clock: 8000, PT: 124}}}}},
 		// duplicate payload type through SetCodecPreferences
 		{Video: []cdc{vp8, vp9}, Multi: true, Answer: true,
 			Locals: []pcTrans{{Kind: 2, Dir: 1, Prefs: []cdc{vp8, {Mime: "video/VP9", Clock: 90000, Line: "profile-id=0", PT: 96}}}},
